@@ -149,7 +149,7 @@ func crossCheckEngine(ops []string, decls []flowDecl, want *config.HAProxyEndpoi
 		return ""
 	}
 	defer e.Close()
-	got := flowsEndpointsRequest(e.Stream.GetSupportedFilters())
+	got := engineFlowsRequest(e.Stream)
 	if endpointsKey(got) != endpointsKey(want) {
 		o.Count("L3-enginecheck-DIFFERS")
 		return "engine-differs"
